@@ -26,7 +26,7 @@ def fourpoint_kernel(o):
         if p.kind == 'raise':
             o.prove(f'no exception path (line {p.exc.lineno})', z3.BoolVal(False), under=p.pc, kind='no-raise')
         o.take_side_obligations(p, 'fourpoint_loop')
-    assert len(rets) == 1, [p.kind for p in ps]
+    o.shape('the kernel has exactly one returning path', len(rets) == 1, [p.kind for p in ps])
     p = rets[0]
     fv, tv, fi, ti, res = p.result
     j = z3.Int('j_')
@@ -88,7 +88,7 @@ def threepoint_kernel(o):
         if p.kind == 'raise':
             o.prove(f'no exception path ({p.exc.exc_type}, line {p.exc.lineno})', z3.BoolVal(False), under=p.pc, kind='no-raise')
         o.take_side_obligations(p, 'threepoint_loop')
-    assert len(rets) == 1, [(p.kind, getattr(p.exc, 'lineno', None)) for p in ps]
+    o.shape('the kernel has exactly one returning path', len(rets) == 1, [(p.kind, getattr(p.exc, 'lineno', None)) for p in ps])
     p = rets[0]
     fv, tv, fi, ti, res = p.result
     j = z3.Int('j_')
